@@ -396,6 +396,7 @@ def _run_case_inner(case, acc):
                   prod, total)
 
     # on the cumulative-return series, and on the raw equity levels (exact ties with earlier peaks survive there)
+    held = []
     for via, ser, x_dd, x_mdd, x_dur in (('create_drawdowns(cum_returns)', s_c, dd, mdd, dur),
                                          ('create_drawdowns(equity)', pd.Series(equity, index=idx), dd_e, mdd_e, dur_e)):
         res = _call(perf.create_drawdowns, ser)
@@ -403,12 +404,22 @@ def _run_case_inner(case, acc):
             for clause in ('drawdown-series', 'max-drawdown', 'drawdown-duration'):
                 acc.check(clause, False, case, {'via': via, 'what': 'runs'}, res, None)
         else:
+            held.append((via, res, x_dd))
             o_dd = [float(x) for x in res[0].tolist()]
             at = _list_close(o_dd, x_dd)
             acc.check('drawdown-series', at is None, case, {'via': via, 'first_diff_at': at},
                       _short(o_dd, at), _short(x_dd, at))
             acc.check('max-drawdown', _close(res[1], x_mdd), case, {'via': via}, res[1], x_mdd)
             acc.check('drawdown-duration', int(res[2]) == x_dur, case, {'via': via}, res[2], x_dur)
+
+    # a result handed out stays what it was when another curve is evaluated afterwards (the tearsheet holds the strategy's
+    # drawdowns while it evaluates the benchmark)
+    _call(perf.create_drawdowns, pd.Series(list(reversed(equity)), index=idx))      # another curve of the same length
+    for via, res, x_dd in held:
+        o_dd = [float(x) for x in res[0].tolist()]
+        at = _list_close(o_dd, x_dd)
+        acc.check('drawdown-series', at is None, case, {'via': via, 'what': 're-read after the later calls', 'first_diff_at': at},
+                  _short(o_dd, at), _short(x_dd, at))
 
     got = _call(perf.create_cagr, s_c, periods)
     exp = _call(spec_cagr, c[-1], n, periods)
@@ -422,6 +433,12 @@ def _run_case_inner(case, acc):
     if so is not None:
         got = _call(perf.create_sortino_ratio, s_r, periods)
         acc.check('sortino', _close(got, so), case, {'via': 'create_sortino_ratio'}, got, so)
+    neg = [x for x in r if x < 0]
+    if len(neg) == 1 and _mean(r) != 0.0:
+        # exactly ONE losing period: the population deviation of a single value is exactly 0, the ratio is +-infinity
+        got = _call(perf.create_sortino_ratio, s_r, periods)
+        exp_inf = math.copysign(float('inf'), _mean(r))
+        acc.check('sortino', _close_or_same(got, exp_inf), case, {'via': 'create_sortino_ratio', 'what': 'one-losing-period'}, got, exp_inf)
 
     # ---- the two reporters on the equity frame ----
     js, tear = _reporters(dates, equity, flavour, periods)
@@ -666,6 +683,11 @@ def _quick_cases(seed):
         _mk('levels', '2020-12-21', 'ts', 252, 3.0, [1.0, 1.25, 1.0, 1.25, 0.5, 1.25, 1.5, 1.5, 1.0]),
         _mk('two-points', '2024-02-20', 'date', 252, 0.001, [100.0, 101.0]),
         _mk('constant', '2024-02-20', 'ts', 252, 1234.5678, [5.0, 5.0, 5.0]),
+        _mk('one-losing-period', '2024-02-20', 'date', 252, 3.0, [100.0, 101.0, 100.5, 102.0, 103.0, 103.5]),
+        _mk('one-losing-period', '2020-12-21', 'ts', 52, 1.0, [100.0, 99.0, 99.0, 99.0, 99.5]),
+        # losses of one or two cents on an account of a million: tiny, not degenerate
+        _mk('cent-losses', '2019-03-01', 'date', 252, 1.0, [1000000.0, 1000250.0, 1000249.99, 1000600.0, 1000599.98, 1000900.0,
+                                                               1000899.99, 1001300.0, 1001299.98, 1001700.0]),
     ]
     rest = []
     # make sure every kind and the long (year-spanning) lengths occur
